@@ -145,7 +145,7 @@ class RandomWalksGenerator:
                 next_states = next_states[random_indices]
                 next_states_hashes = next_states_hashes[random_indices]
             x.append(next_states)
-            x_hashes.add_sorted_hashes(next_states_hashes)
+            x_hashes.add_sorted_hashes(torch.sort(next_states_hashes)[0])
             y.append(torch.full((layer_size,), i_step, device=graph.device, dtype=torch.int32))
         return graph.decode_states(torch.vstack(x)), torch.hstack(y)
 
